@@ -1271,7 +1271,9 @@ class WorkflowConductor(object):
                 if reset_items or item["status"] in statuses.ABENDED_STATUSES:
                     item["status"] = statuses.UNSET
         # Otherwise, add a new task state entry and stage task to be returned in get_next_tasks.
+        # The task may still be staged (i.e. it was waiting to be retried when the workflow ended).
         else:
+            self.workflow_state.remove_staged_task(task_id, route)
             self.add_task_state(task_id, route, in_ctx_idxs=task_ctx, prev=task_prev)
             self.workflow_state.add_staged_task(task_id, route, ctxs=task_ctx, prev=task_prev)
 
